@@ -30,16 +30,16 @@ def EnabledRecv (s : St) : Prop := s.buf ≠ [] ∨ s.sc = 0
 /-- there is space (exact occupancy) or every receiver is gone -/
 def EnabledSend (fl : Flavour) (s : St) : Prop := full fl s = false ∨ receiversGone fl s = true
 
-/-- **A blocking receive blocks ⇔ it is not enabled** (buffered families; open handle; the spsc async
-batch forms also accept `producer_dropped` as "senders gone", excluded here by `s.pd = false`). -/
+/-- **A blocking receive blocks ⇔ it is not enabled** (buffered families; open handle; every receive form tests
+the sender count — since fix 23f212c (N6) also the spsc async batch forms, so no hypothesis on `producer_dropped`). -/
 theorem C05_recv_blocks_iff_not_enabled {fl : Flavour} (hrv : fl.fam ≠ .rv) (hos : fl.fam ≠ .os) (s : St)
     (f : Form) (h : HName) (n : Nat) (hd : Handle) (hf : findH s.hs h = some hd) (hside : hd.name.side = .rx)
     (hform : f.isSend = false) (hblk : f.blocking = true) (hsup : supportsForm fl.fam hd.isAsync f = true)
-    (hopen : hd.closed = false) (hn : f.isBatch = true → n ≠ 0) (hpd : s.pd = false) :
+    (hopen : hd.closed = false) (hn : f.isBatch = true → n ≠ 0) :
     (stepOp fl s (.rcv f h n)).2.tag = .blocks ↔ ¬ EnabledRecv s := by
   rw [stepOp_recv_blocks_iff hrv hos s f h n hd hf hside hform hsup hopen hn]
   unfold EnabledRecv goneFor sendersGone
-  simp only [hpd, Bool.and_false, Bool.or_false, hblk, and_true, beq_eq_false_iff_ne, ne_eq, not_or, Decidable.not_not]
+  simp only [hblk, and_true, beq_eq_false_iff_ne, ne_eq, not_or, Decidable.not_not]
 
 /-- **A blocking send blocks ⇔ it is not enabled**, wherever the window it consults is the exact one
 (every buffered family; for the bounded mpsc only while no consumer progress is unpublished). -/
@@ -116,8 +116,8 @@ theorem C05_quiescent_recv_not_enabled {fl : Flavour} {cfg : Cfg} {sf : St} {t :
   obtain ⟨hb, hg, _⟩ := (recvStep_none_iff fl cfg sf t f hd n hw hform).mp hdet'
   refine ⟨hb, ?_⟩
   unfold goneFor sendersGone at hg
-  simp only [Bool.or_eq_false_iff, beq_eq_false_iff_ne, ne_eq] at hg
-  exact hg.1
+  simp only [beq_eq_false_iff_ne, ne_eq] at hg
+  exact hg
 
 /-- … and a never-returned blocking `send` that has pushed nothing is not enabled: the window is closed
 (with the exact window of the concurrent specification: the channel is full) and the receivers are alive. -/
